@@ -4,16 +4,21 @@ from . import pure
 
 SPECS = {}
 SPECS.update(pure.SPECS)
+from . import tier1, conc
+SPECS.update(tier1.SPECS)
 
 from . import common as C
 BUILDERS = [
     lambda: C.ocaml_build("pure_run", "theories/Extract/ExtractPure.v", "pure_model", "pure_run.ml"),
     lambda: C.go_build("pure"),
+    lambda: conc.build_replayer(),
+    lambda: conc.build_driver("queue"),
 ]
 
 def replay(prop_id, path):
     """Re-evaluate the cases of a replay file against the current /repo."""
     data = json.load(open(path))
+    data["_path"] = path
     print(json.dumps({k: data[k] for k in data if k in ("property", "kind", "no_longer_checks", "violations")}, indent=1)[:4000])
     mod = SPECS[prop_id].get("replay")
     if mod:
